@@ -132,9 +132,26 @@ func (e *Engine) runJob(h *HarnessSpec, shard, nshards int, solverCmd []string, 
 	res = &JobResult{Harness: h.Name, Shard: shard, Status: "ok"}
 	t0 := time.Now()
 	w := &Worker{eng: e, job: res, shard: shard, nshards: nshards, maxSteps: h.Steps,
-		deadline: time.Now().Add(time.Duration(h.Timeout) * time.Second), maxDepth: 400, fnSeen: map[*ssa.Function]int{}, noMerge: h.NoMerge, trace: trace}
+		deadline: time.Now().Add(time.Duration(h.Timeout) * time.Second), maxDepth: 400, fnSeen: map[*ssa.Function]int{}, noMerge: h.NoMerge, mergeConcrete: h.MergeConcrete, trace: trace}
 	w.solver = newSolver(solverCmd, timeoutMs)
+	if os.Getenv("VERIF_PROFILE") != "" {
+		w.profile = map[string]int{}
+	}
 	defer func() {
+		if w.profile != nil {
+			type kv struct {
+				k string
+				v int
+			}
+			var kvs []kv
+			for k, v := range w.profile {
+				kvs = append(kvs, kv{k, v})
+			}
+			sort.Slice(kvs, func(i, j int) bool { return kvs[i].v > kvs[j].v })
+			for i := 0; i < len(kvs) && i < 25; i++ {
+				fmt.Printf("  decide %6d %s\n", kvs[i].v, kvs[i].k)
+			}
+		}
 		w.solver.close()
 		res.Wall = time.Since(t0).Seconds()
 		res.Steps, res.States, res.Branches, res.Merges = w.steps, w.states, w.branches, w.merges
